@@ -394,6 +394,17 @@ def _rows_close(got, want, case, f32=False):
     return len(got) == len(want) and all(len(a) == len(b) and _sum_close(a[0], b[0], case, f32) and a[1:] == b[1:] for a, b in zip(got, want))
 
 
+def _rows_multiset_close(got, want, case):
+    """same rows up to order (and the reward tolerance)"""
+    left = list(want)
+    for g in got:
+        hit = next((k for k, w in enumerate(left) if _rows_close([g], [w], case)), None)
+        if hit is None:
+            return False
+        left.pop(hit)
+    return not left
+
+
 def compare_monitor(case, impl, mv):
     probs = []
     kw = case["info_keywords"]
@@ -452,7 +463,7 @@ def compare_monitor(case, impl, mv):
                 cur[w] = None
             elif ev["ep"] is not None:
                 probs.append(("oracle-monitor-spurious-episode-info", f"op {n}: 'episode' entry on a step that does not end the episode"))
-    if case.get("append") and not _rows_close(impl["rows"], expected_rows, case) and _rows_close(sorted(impl["rows"]), sorted(expected_rows), case):
+    if case.get("append") and not _rows_close(impl["rows"], expected_rows, case) and _rows_multiset_close(impl["rows"], expected_rows, case):
         # known class, precise predicate: a Monitor re-opened the file with override_existing=False; the rows are all there but load_results,
         # which sorts by t, lists the appended episodes (whose t restarts at the new monitor's start) among the earlier ones
         probs.append((APPEND_SIG, f"a Monitor appending to an existing file (override_existing=False) writes times relative to ITS start under the first header's t_start: "
@@ -572,7 +583,7 @@ def compare_eval(case, impl, mv):
         from fractions import Fraction as Fr
         m = sum(Fr(x) for x in rs) / n
         var = sum((Fr(x) - m) ** 2 for x in rs) / n
-        tol = 1e-6 if case["mode"] == 2 else 1e-9   # VecMonitor reports float32 returns: np.mean / np.std then work in float32
+        tol = 1e-6 if case["mode"] in (2, 4) else 1e-9   # VecMonitor reports float32 returns: np.mean / np.std then work in float32
         if abs(impl["mean"] - float(m)) > tol * max(1.0, abs(float(m))) or abs(impl["std"] - float(var) ** 0.5) > tol * max(1.0, float(var) ** 0.5):
             probs.append(("oracle-evaluate-mean-std", f"mean/std {impl['mean']!r}/{impl['std']!r}, the {n} episode returns have {float(m)!r}/{float(var) ** 0.5!r}"))
         if impl["warned"] != (case["mode"] == 0):
